@@ -47,6 +47,7 @@ type Modifies struct {
 	At   string // expression text for object (may be empty = whole key)
 	AtE  Expr
 	Loop int // 0 = function level
+	Fresh bool // loop clause 'modifies-fresh': only objects allocated by this call
 }
 
 type LetDef struct {
@@ -94,7 +95,7 @@ type ResetSpec struct {
 var rePreserves = regexp.MustCompile(`^preserves(\[[A-Za-z0-9!, ]*\])?\s+(.*)$`)
 var reResets =regexp.MustCompile(`^resets(\[[A-Za-z0-9!, ]*\])?\s+([A-Za-z_][A-Za-z0-9_]*)\s*$`)
 var reAssertSel =regexp.MustCompile(`^assert(\[[A-Za-z0-9!, ]*\])?\s+at\s+select\s+(\d+)\s*:\s*(.*)$`)
-var reLoop = regexp.MustCompile(`^loop\s+(\d+)\s+(invariant|modifies|decreases)(\[[A-Za-z0-9!, ]*\])?\s+(.*)$`)
+var reLoop = regexp.MustCompile(`^loop\s+(\d+)\s+(invariant|modifies-fresh|modifies|decreases)(\[[A-Za-z0-9!, ]*\])?\s+(.*)$`)
 
 func parseTags(s string) []string {
 	s = strings.Trim(s, "[]")
@@ -344,11 +345,14 @@ func (cs *ContractSet) loadFile(path string, ext bool) error {
 			switch m[2] {
 			case "invariant":
 				addClause(cur, "invariant", parseTags(m[3]), m[4], k)
-			case "modifies":
+			case "modifies", "modifies-fresh":
 				md, err := parseModifies(m[4], k)
 				if err != nil {
 					return fmt.Errorf("%s:%d: %v", path, lineNo, err)
 				}
+				// modifies-fresh: the loop writes this memory only in objects allocated by this
+				// function call (each store is an obligation); objects that existed at entry keep it
+				md.Fresh = m[2] == "modifies-fresh"
 				cur.Mods = append(cur.Mods, md)
 				lastText = nil
 			case "decreases":
